@@ -48,7 +48,8 @@ def grid_dataset(ctx, conv, shape, as_coords=True):
         data['miss'] = (D['face'], clipcommon.ids(SH['face'], 'int32', 20), {'missing_value': numpy.int32(-1)})
         data['zero'] = (D['face'], clipcommon.ids(SH['face'], 'uint8', 1), {'_FillValue': numpy.uint8(0)})
         data['mzero'] = (D['face'], clipcommon.ids(SH['face'], 'int16', 1), {'missing_value': numpy.int16(0)})
-        kinds['face']['intfill'] = [('flag', -99), ('miss', -1), ('zero', 0), ('mzero', 0)]
+        data['pyfill'] = (D['face'], clipcommon.ids(SH['face'], 'int32', 30), {'_FillValue': -7})
+        kinds['face']['intfill'] = [('flag', -99), ('miss', -1), ('zero', 0), ('mzero', 0), ('pyfill', -7)]
         data['clock'] = (('record',), numpy.array([5.0, 6.0]), {'long_name': 'clock'})
         data['scalar'] = ((), numpy.float64(7.5))
         ds = builders.shoc_standard(ny, nx, data_vars=data, as_coords=as_coords)
@@ -66,13 +67,16 @@ def grid_dataset(ctx, conv, shape, as_coords=True):
         # zero is a legal fill value (category / flag variables)
         'zero': ((yd, xd), clipcommon.ids((ny, nx), 'uint8', 1), {'_FillValue': numpy.uint8(0)}),
         'mzero': ((yd, xd), clipcommon.ids((ny, nx), 'int16', 1), {'missing_value': numpy.int16(0)}),
+        # a dataset built in memory: the fill value is a plain Python number
+        'pyfill': ((yd, xd), clipcommon.ids((ny, nx), 'int32', 30), {'_FillValue': -7}),
+        'pymiss': ((yd, xd), clipcommon.ids((ny, nx), 'int16', 40), {'missing_value': -3}),
         # instants and durations hold missing values too (NaT)
         'stamp': ((yd, xd), (numpy.datetime64('2021-03-01T00:00', 'ns') + numpy.arange(ny * nx) * numpy.timedelta64(1, 'h')).reshape(ny, nx)),
         'age': ((xd, yd), (numpy.arange(1, ny * nx + 1) * numpy.timedelta64(45, 'm')).astype('timedelta64[ns]').reshape(nx, ny)),
         'clock': (('t',), numpy.array([5.0, 6.0]), {'long_name': 'clock'}),
         'scalar': ((), numpy.float64(7.5)),
     }
-    kinds = {'face': dict(dims=(yd, xd), shape=(ny, nx), float=['temp', 'botz', 'mid', 'stamp', 'age'], id='cellid', intfill=[('flag', -99), ('miss', -1), ('zero', 0), ('mzero', 0)])}
+    kinds = {'face': dict(dims=(yd, xd), shape=(ny, nx), float=['temp', 'botz', 'mid', 'stamp', 'age'], id='cellid', intfill=[('flag', -99), ('miss', -1), ('zero', 0), ('mzero', 0), ('pyfill', -7), ('pymiss', -3)])}
     if conv == 'cf1d':
         # stored bounds: the cell geometry is explicit, so it can be compared before and after clipping
         # (and a clipped axis of length one still has a width)
@@ -97,7 +101,7 @@ def grid_dataset(ctx, conv, shape, as_coords=True):
     return ds, cv, kinds
 
 
-def mesh_dataset(ctx, mesh, supply, start_index, fill, transposed=False, fill_value=None, coords_as_coords=False, with_edges=True):
+def mesh_dataset(ctx, mesh, supply, start_index, fill, transposed=False, fill_value=None, coords_as_coords=False, with_edges=True, dtype='int32'):
     from emsarray.conventions.ugrid import UGrid
     nodes, faces = builders.MESHES[mesh]
     ne = len(builders.mesh_edges(faces)[0])
@@ -125,7 +129,7 @@ def mesh_dataset(ctx, mesh, supply, start_index, fill, transposed=False, fill_va
         data = {k: v for k, v in data.items() if 'nedge' not in v[0]}
         ne = None
     ds = builders.ugrid(mesh, supply=supply, start_index=start_index, fill=fill, transposed=transposed, with_edges=with_edges, data_vars=data,
-                        edge_order=edge_order, fill_value=fill_value, coords_as_coords=coords_as_coords)
+                        edge_order=edge_order, fill_value=fill_value, coords_as_coords=coords_as_coords, dtype=dtype)
     ds.attrs['title'] = 'clip me'
     return ds, UGrid(ds), (nodes, faces, ne)
 
@@ -190,6 +194,16 @@ def expected_masks(conv, shape, chosen, buffer):
     return masks
 
 
+def _attrs_same(new, old):
+    """Attributes of a variable after / before. The ones xarray understands (fill value, packing) may have moved to
+    the encoding when a piece of the result went through a file - they are still declared, with the same value."""
+    a, b = dict(new.attrs), dict(old.attrs)
+    for k in ('_FillValue', 'missing_value', 'scale_factor', 'add_offset'):
+        if k in b and k not in a and k in new.encoding:
+            a[k] = new.encoding[k]
+    return set(a) == set(b) and all(bool(numpy.all(numpy.asarray(a[k]) == numpy.asarray(b[k]))) for k in a)
+
+
 def check_grid_values(ctx, ds, out, kinds, masks):
     """C08 on grids: every selected value kept, every remaining unselected cell blanked, ints cropped not altered."""
     for kind, info in kinds.items():
@@ -247,6 +261,8 @@ def check_grid_values(ctx, ds, out, kinds, masks):
     if 'temp' in ds.data_vars:
         ctx.check(dict(out['temp'].attrs) == dict(ds['temp'].attrs), 'variable attributes pass through unchanged, whatever they are called')
     ctx.check(out.attrs.get('title') == 'clip me' and all(out.attrs.get(k) == v for k, v in ds.attrs.items()), 'global attributes pass through unchanged')
+    ctx.check(all(_attrs_same(out[n], ds[n]) for n in ds.variables if n in out.variables),
+              'the attributes of every variable and coordinate pass through unchanged')
     for name in ds.data_vars:
         ctx.check(name in out.variables, f'variable {name} survives clipping')
     ctx.check([n for n in out.data_vars if n in ds.data_vars] == [n for n in ds.data_vars if n in out.data_vars], 'variable order preserved')
@@ -323,12 +339,16 @@ def check_mesh_values(ctx, ds, out, info, kept_faces):
     ctx.check(bool(numpy.array_equal(numpy.asarray(out['clock'].values, dtype=float), [5.0, 6.0])), 'variables without mesh dimensions pass through unchanged')
     ctx.check(out.attrs.get('title') == 'clip me', 'global attributes pass through unchanged')
     ctx.check(dict(out['v_face'].attrs) == dict(ds['v_face'].attrs), 'variable attributes pass through unchanged, whatever they are called')
+    mesh_attrs = next(v.attrs for v in ds.variables.values() if v.attrs.get('cf_role') == 'mesh_topology')
+    tables = {v for k, v in mesh_attrs.items() if k.endswith('_connectivity')}
+    ctx.check(all(_attrs_same(out[n], ds[n]) for n in ds.variables if n in out.variables and n not in tables),
+              'the attributes of every variable and coordinate that is not a connectivity table pass through unchanged')
     ctx.check([n for n in out.data_vars if n in ds.data_vars] == [n for n in ds.data_vars if n in out.data_vars], 'variable order preserved')
 
 
 def body_mesh(ctx, mesh, supply, start_index, fill, buffer, via, check='values', transposed=False, fill_value=None, coords_as_coords=False,
-              with_edges=True):
-    ds, cv, info = mesh_dataset(ctx, mesh, supply, start_index, fill, transposed, fill_value, coords_as_coords, with_edges)
+              with_edges=True, dtype='int32'):
+    ds, cv, info = mesh_dataset(ctx, mesh, supply, start_index, fill, transposed, fill_value, coords_as_coords, with_edges, dtype)
     nodes, faces, ne = info
     from harness import geomref
     geomref.check(ctx, ds, cv, kind='ugrid')
@@ -385,8 +405,11 @@ def cases(tier, check='values'):
                              ('tqp', ('edge_node',), dict(start_index=0, fill='nan', coords_as_coords=True)),
                              # a mesh without edges that stores its face adjacency
                              ('tqp', ('face_face',), dict(start_index=1, fill='nan', with_edges=False)),
-                             ('qqq', ('face_face',), dict(start_index=0, fill='attr', with_edges=False))):
-        yield Case(f'{check}:mesh:{mesh}:{"+".join(supply)}:start{kw["start_index"]}:{kw["fill"]}:fill{kw.get("fill_value")}:coords{int(kw.get("coords_as_coords", False))}:edges{int(kw.get("with_edges", True))}:buf0:clip', body_mesh,
+                             ('qqq', ('face_face',), dict(start_index=0, fill='attr', with_edges=False)),
+                             # tables built in memory in other integer types (nothing in the encoding)
+                             ('tqp', ('edge_node', 'face_edge'), dict(start_index=1, fill='attr', dtype='int64')),
+                             ('tqp', ('edge_node', 'edge_face'), dict(start_index=0, fill='attr', dtype='int16', fill_value=-1))):
+        yield Case(f'{check}:mesh:{mesh}:{"+".join(supply)}:start{kw["start_index"]}:{kw["fill"]}:fill{kw.get("fill_value")}:coords{int(kw.get("coords_as_coords", False))}:edges{int(kw.get("with_edges", True))}:{kw.get("dtype", "int32")}:buf0:clip', body_mesh,
                    dict(mesh=mesh, supply=supply, buffer=0, via='clip', check=check, **kw), patches=_patches, max_paths=2000)
     supplies = [(), ('edge_node',), ('edge_node', 'face_edge'), ('edge_node', 'edge_face'), ('edge_node', 'face_face'),
                 ('edge_node', 'face_edge', 'edge_face', 'face_face'),
